@@ -302,6 +302,7 @@ func (cf *compactFlusher) StreamWriter() (table.StreamWriter, error) {
 	cf.streamWriter = &compactFlusherStreamWriter{
 		compactFlusher: cf,
 		StreamWriter:   sw,
+		builder:        cf.compactJob.state.builder,
 	}
 	return cf.streamWriter, nil
 }
@@ -359,14 +360,42 @@ func (cf *compactFlusher) Release() {
 	panic("Release is not allowed to call for CompactFlusher")
 }
 
-// compactFlusherStreamWriter wraps stream writer with write check
+// compactFlusherStreamWriter wraps the stream writer of the output file that is open at the moment.
+// A Commit may finish that file (it is big enough): the next Prepare then opens the next output file
+// and binds the wrapper to its stream writer.
 type compactFlusherStreamWriter struct {
 	compactFlusher *compactFlusher
 	table.StreamWriter
+	builder    table.Builder // builder which the wrapped stream writer belongs to
+	prepareErr error         // failure of opening the next output file, reported by Write/Commit
+}
+
+// Prepare makes sure that the key goes to the output file which is open now.
+func (cfsw *compactFlusherStreamWriter) Prepare(key uint32) {
+	cfsw.prepareErr = cfsw.compactFlusher.beforeAdd()
+	if cfsw.prepareErr != nil {
+		return
+	}
+	if builder := cfsw.compactFlusher.compactJob.state.builder; builder != cfsw.builder {
+		cfsw.builder = builder
+		cfsw.StreamWriter = builder.StreamWriter()
+	}
+	cfsw.StreamWriter.Prepare(key)
+}
+
+// Write writes buffer into the output file which is open now.
+func (cfsw *compactFlusherStreamWriter) Write(data []byte) (int, error) {
+	if cfsw.prepareErr != nil {
+		return 0, cfsw.prepareErr
+	}
+	return cfsw.StreamWriter.Write(data)
 }
 
 // Commit checks if build's file if it is big enough
 func (cfsw *compactFlusherStreamWriter) Commit() error {
+	if cfsw.prepareErr != nil {
+		return cfsw.prepareErr
+	}
 	// table's StreamWriter Commit won't raise error
 	_ = cfsw.StreamWriter.Commit()
 	return cfsw.compactFlusher.afterAdd()
